@@ -713,16 +713,20 @@ func runScript(mod, src string, inputs map[string]tengo.Object) (tengo.Object, e
 	return v, nil
 }
 
+// callScript calls the entry from a script that imports its module. The
+// function is selected by indexing the imported module with its name
+// (`m[fname]`, equivalent to `m.name`), so that one compiled script serves
+// every entry of a module with the same number of arguments.
 func callScript(r *row, pattern string, args []tengo.Object) outcome {
 	mod := r.mod
 	var sb strings.Builder
-	inputs := map[string]tengo.Object{}
+	inputs := map[string]tengo.Object{"fname": strObj(r.name)}
 	if r.pattern {
 		mod = "text"
-		sb.WriteString(`m := import("text"); re := m.re_compile(p); r := re.` + r.name + "(")
+		sb.WriteString(`m := import("text"); re := m.re_compile(p); f := re[fname]; r := f(`)
 		inputs["p"] = strObj(pattern)
 	} else {
-		sb.WriteString(`m := import("` + mod + `"); r := m.` + r.name + "(")
+		sb.WriteString(`m := import("` + mod + `"); f := m[fname]; r := f(`)
 	}
 	for i, a := range args {
 		if i > 0 {
